@@ -370,7 +370,7 @@ def main():
             harnesses=per_h, known_findings_seen=sorted(seen_known), inconclusive=inconclusive[:10],
             second_solver=dict(second, solver=SOLVER2 or "none", note="every path whose obligations the primary solver (z3 4.8.12, incremental within one run) reports as proved is re-asked, self-contained and in a fresh context, to a second solver (z3 5.1); a model from the second solver is treated as a counterexample candidate and replayed natively; skipped for path conditions with sqrt / uninterpreted terms"),
             closure_check=dict(closure, note="per harness run that closed: fresh solver proves domain /\\ not(pc_1 \\/ ... \\/ pc_n) unsat, i.e. every input of the domain follows an explored path; skipped for runs that did not close, whose path conditions mention sqrt / uninterpreted terms, or whose input variables differ between paths"),
-            cross_process_replays=dict(path_witnesses=agg_x["witnesses"], fresh_processes=agg_x["processes"], note="native f64 re-execution of path witnesses in fresh processes (new SipHash keys) under rayon pools of 1, 8 and 3 threads; outputs compared bit for bit with the exploration's"),
+            cross_process_replays=dict(path_witnesses=agg_x["witnesses"], fresh_processes=agg_x["processes"], note="native f64 re-execution of path witnesses in fresh processes (new SipHash keys) under rayon pools of 1, 8 and 3 threads; outputs compared bit for bit with the exploration's; then again (pools 1, 1, 8, 3) with a fixed non-dyadic offset on every input (SYMX_JITTER=1), those processes compared with each other"),
         ),
         assumptions=sorted(assumptions) + ["bounded: shapes, input grid and budgets as listed per harness; outside them nothing is claimed",
                                            "exact terms are proved < 2^53 by interval analysis so real arithmetic = IEEE f64 on the grid; rounded/uninterpreted terms are counted above",
